@@ -53,6 +53,18 @@ def run(ctx):
             texts.append(g.render(stmts))
     for name, t in pf.corpus_texts():
         texts.append(t)
+    # labels with groups only (no object) and repeated names at the top level: the shape in which the
+    # default (PDS3) encoder assigns into the container it is given
+    for _ in range(n // 4):
+        names = [rng.choice("abc") for _ in range(rng.randrange(2, 6))]
+        parts = []
+        for nm in names:
+            if rng.random() < 0.55:
+                inner = "\n".join("  %s = %d" % (rng.choice("xyx^"), rng.randrange(9)) for _ in range(rng.randrange(0, 3)))
+                parts.append("GROUP = %s\n%s\nEND_GROUP = %s" % (nm, inner.replace("^ =", "^p ="), nm))
+            else:
+                parts.append("%s = %d" % (nm, rng.randrange(100)))
+        texts.append("\n".join(parts) + "\nEND\n")
     bad = None
     stats = collections.Counter()
     kf = [f for f in core.load_known()["findings"] if f["property"] == "C19"]
